@@ -73,6 +73,17 @@ def summarize(res):
             'lemmas': res.used_lemmas, 'obs': obs, 'kind': res.kind, 'reachable_exits': res.reachable_exits}
 
 
+def safe_str(o):
+    """text for JSON output of arbitrary library objects (their own __str__ may raise)"""
+    try:
+        return repr(o)
+    except Exception:
+        try:
+            return object.__repr__(o)
+        except Exception:
+            return '<unprintable %s>' % type(o).__name__
+
+
 def worker(job):
     prop, kind, key, idx, cfg_i, shard = job
     try:
@@ -286,7 +297,7 @@ def main(argv):
         rp['real_result'] = confirmed
         fname = os.path.join(VERIF, 'replays', '%s_%s.json' % (prop, hashlib.sha1(repr(key).encode()).hexdigest()[:10]))
         with open(fname, 'w') as f:
-            json.dump(rp, f, indent=1, default=str)
+            json.dump(rp, f, indent=1, default=safe_str)
         suffix = '' if confirmed else ' no-failing-input-found'
         lines.append('VIOLATION property=%s replay=%s%s' % (prop, fname, suffix))
         print('  refuted: %s %s :: %s %s' % (r['name'], r['config'], o['kind'], o['descr'][:160]))
@@ -315,7 +326,7 @@ def main(argv):
             with open(fname, 'w') as f:
                 json.dump({'property': prop, 'unit': r['name'], 'config': r['config'],
                            'obligation': 'bounded stand-in (unit undecided: %s)' % r['reason'][:200],
-                           'input': out['inputs'], 'real_result': out}, f, indent=1, default=str)
+                           'input': out['inputs'], 'real_result': out}, f, indent=1, default=safe_str)
             lines.append('VIOLATION property=%s replay=%s' % (prop, fname))
             exit_code = 1
     # declared bounded units: contracts that no obligation can decide (FFI, floats, assumed
@@ -338,7 +349,7 @@ def main(argv):
                         with open(fname, 'w') as f:
                             json.dump({'property': prop, 'unit': '%s[%s]' % (cd.target, cd.name), 'config': ch,
                                        'obligation': 'bounded check of a declared-bounded contract',
-                                       'input': out['inputs'], 'real_result': out}, f, indent=1, default=str)
+                                       'input': out['inputs'], 'real_result': out}, f, indent=1, default=safe_str)
                         lines.append('VIOLATION property=%s replay=%s' % (prop, fname))
                         print('  bounded unit %s: %s' % (cd.name, out.get('detail')))
                         exit_code = 1
@@ -385,7 +396,7 @@ def main(argv):
           'assumptions': PROPS[prop].get('assumptions', []) + ['ASSUMED (unproved) contract used at call sites: %s' % a for a in sorted(assumed_used)], 'wall_s': round(wall, 2),
           'violations': len(lines)}
     with open(os.path.join(VERIF, 'evidence', '%s.json' % prop), 'w') as f:
-        json.dump(ev, f, indent=1, default=str)
+        json.dump(ev, f, indent=1, default=safe_str)
     print('%s %s: %d units, %d obligations, %d discharged, %d refuted, %d undecided units, %.1fs' % (
         prop, tier, len(results), n_obs, n_dis, len(reported), len(undecided), wall))
     return exit_code if exit_code in (0, 1) else 3
@@ -451,7 +462,7 @@ def do_replay(path):
         print(rp.get('model'))
         return 0
     out = replay_inputs(rp['unit'], rp['input'], rp.get('config'))
-    print(json.dumps(out, indent=1, default=str))
+    print(json.dumps(out, indent=1, default=safe_str))
     return 1 if out.get('verdict') == 'violation' else 0
 
 
